@@ -209,7 +209,7 @@ theorem c13_raw_fault_agrees (cfg : Machine.Cfg) (bs : Bytes) :
             simp [finishTop, skipWs] at hclean
       · rw [h, hclean]
 
-/-- non-vacuity: ` [1,]` then a fault: the trailing comma (index 5) is reported, not `Io`; ` [1,` then a fault: `Io`;
+/-- non-vacuity: ` [1,]` then a fault: the `]` after the comma is rejected by the scanner (`ExpectedSomeValue`, index 5), not `Io`; ` [1,` then a fault: `Io`;
     `"\xff"` then a fault: the captured text is not UTF-8 (index 3); `1 x`: trailing characters (index 3) -/
 example : rawFault {} [0x20, 0x5b, 0x31, 0x2c, 0x5d] = .err .ExpectedSomeValue 5 := rfl
 example : rawFault {} [0x20, 0x5b, 0x31, 0x2c] = .io := rfl
